@@ -4,7 +4,7 @@ CONSTANTS MaxLen, Win, RunLens
 VARIABLES c
 vars == <<c>>
 Emit(rec) == PrintT(<<"REPLAY", ToJson(rec)>>)
-Formats == {"versatiles", "pmtiles", "mbtiles", "tar", "mvt"}
+Formats == {"versatiles", "pmtiles", "mbtiles", "tar", "dir", "mvt"}
 Init ==
     \/ \E ctx \in JsonContexts, s \in Seqs(JsonBytes, MaxLen) : c = <<"json", ctx, s>> /\ Emit([k |-> "text", dec |-> "json", bytes |-> ctx \o s])
     \/ \E ctx \in VplContexts, s \in Seqs(VplBytes, MaxLen) : c = <<"vpl", ctx, s>> /\ Emit([k |-> "text", dec |-> "vpl", bytes |-> ctx \o s])
